@@ -205,6 +205,15 @@ impl StreamingSound {
 	}
 }
 
+impl Drop for StreamingSound {
+	fn drop(&mut self) {
+		// the sound may be discarded without ever reaching the stopped state (rejected by
+		// a full track, or dropped together with its track or the manager); the decoder
+		// thread ends when it sees this state
+		self.shared.set_state(PlaybackState::Stopped);
+	}
+}
+
 impl Sound for StreamingSound {
 	fn on_start_processing(&mut self) {
 		self.update_current_frame();
